@@ -391,6 +391,7 @@ func c21Parse(line string) (*c21Case, bool) {
 			ok = ok && c.n >= 1 && c.n <= 16
 		case "me":
 			c.me, ok = c21ParseKey(v)
+			ok = ok && (c.me < 16 || (c.me >= 100 && c.me < 104))
 		case "base":
 			c.base, ok = c21Num(v)
 			ok = ok && c.base <= 1000
@@ -741,8 +742,36 @@ func c21Run(line string) string {
 		}
 		fin[out] = true
 	}
+	pvbStr, dpcStr, bfcStr, finStr := c21Set(pvb), c21Set(dpc), c21Set(bfc), c21Set(fin)
+	if 3*len(svc.pcEquivocations) > c.n {
+		// more than one third of the authorities equivocated in their precommits: blocks on different forks can
+		// have a supermajority at the same time and the candidate depends on the order in which the votes are
+		// visited; the property says nothing about that region, the outcome is not compared
+		bfcStr, finStr = "byz", "byz"
+	}
+	// a stored vote whose number is not its block's number (validateVote does not compare them: known finding
+	// c21-wrong-number-vote-counted) makes the tallies depend on the map iteration order in ways no bounded
+	// number of repetitions enumerates; the order-dependent outcomes are not compared in that region
+	wrongNum := func(m *sync.Map) bool {
+		bad := false
+		m.Range(func(_, v interface{}) bool {
+			sv := v.(*SignedVote)
+			if i, ok := t.index[sv.Vote.Hash]; !ok || uint(sv.Vote.Number) != t.headers[i].Number {
+				bad = true
+			}
+			return true
+		})
+		return bad
+	}
+	wv := wrongNum(svc.prevotes)
+	if wv {
+		pvbStr, dpcStr = "wn", "wn"
+	}
+	if wv || wrongNum(svc.precommits) {
+		bfcStr, finStr = "wn", "wn"
+	}
 	return fmt.Sprintf("%s|%s|tot=%s/%s|pvb=%s dpc=%s bfc=%s dpv=%s fin=%s", strings.Join(res, ";"), stateStr,
-		strings.Join(totPv, ","), strings.Join(totPc, ","), c21Set(pvb), c21Set(dpc), c21Set(bfc), c21Set(dpv), c21Set(fin))
+		strings.Join(totPv, ","), strings.Join(totPc, ","), pvbStr, dpcStr, bfcStr, c21Set(dpv), finStr)
 }
 
 // ---------------------------------------------------------------- generator (first version: random)
